@@ -47,8 +47,10 @@ ASSUMPTIONS = [
     'recorded as an observation in design.d/C18.md)',
     'router thread and other threads interleave at the granularity of whole run() iterations / receivePacket / sendPacket '
     'calls (queue.Queue operations are atomic; the gate lets exactly one thread move at a time)',
-    'the model describes the code with fixes/F18a.patch (sendall), F18b.patch (prefix from len(data)) and F18c.patch (UART '
-    'size check before the lock) applied',
+    'the model describes the code with fixes/F18a.patch (sendall), F18b.patch (prefix from len(data)), F18c.patch (UART '
+    'size check before the lock) and F18d.patch (write lock around sendall) applied',
+    'concurrent senders interleave at the granularity of socket send calls (socket.sendall is a loop over send and is not '
+    'atomic between threads); with the write lock of F18d no atomicity of sendall is assumed',
 ]
 PROVED = ('Over the model: CPXPacket encode/decode round trip for all 4x4x7x2 attribute combinations and every '
           'payload; unsupported versions rejected (packet level, byte level, and inside a stream with the reader '
@@ -58,7 +60,10 @@ PROVED = ('Over the model: CPXPacket encode/decode round trip for all 4x4x7x2 at
           'frame reaches the stream; packets whose data was assigned after construction are framed by their data; the router '
           'delivers, per function, exactly the packets that arrived while its queue existed, in arrival order, only to '
           'receivers of that function, for every interleaving; router on the real transport and the CPX facade (send, '
-          'receive, makeTransaction, close) equal the router on the packet list; CRTP header and payload unchanged through '
+          'receive, makeTransaction, close) equal the router on the packet list; what receivers of a function observe depends only '
+          'on the events of that function (no bound on a queue, the router never waits) and the router consumes the whole stream; '
+          'any interleaving of the atomic frame writes of concurrent senders re-assembles to an interleaving of their sequences; '
+          'CRTP header and payload unchanged through '
           'send_packet and the receive thread (header modulo the two reserved bits CRTPPacket forces to 1); UART framing '
           'round trip, noise skipping, oversize refusal leaving the link usable.')
 NOT_PROVED = ('UARTTransport.connect handshake; behaviour on a closed socket (recv returning b""); a UART checksum mismatch is '
@@ -606,16 +611,22 @@ def impl_cpx_session(chunks, takes, events):
     gets = {}
     extra_puts = {}
 
+    state = {'stuck': False}
+
     def wait_idle():
-        if not gate.idle.wait(3):
-            raise AssertionError('router thread did not come back to the gate')
+        # bounded: a router thread that does not come back for its next iteration is an observation ([24]), not a hang
+        if not gate.idle.wait(1.5):
+            state['stuck'] = True
+            obs.append([24, sock.pending()])
+            return False
+        return True
 
     def pump():
         if gate.closed:
-            return
+            return True
         gate.idle.clear()
         gate.tokens.release()
-        wait_idle()
+        return wait_idle()
 
     def sent_since(n0):
         return b''.join(sock.sent[n0:])
@@ -628,7 +639,8 @@ def impl_cpx_session(chunks, takes, events):
             sock.ti = 0
             n0 = len(sock.sent)
             if e[0] == 'P':
-                pump()
+                if not pump():
+                    break
             elif e[0] == 'R':
                 try:
                     p = c.receivePacket(_fn_member(e[1]), timeout=0)
@@ -666,7 +678,10 @@ def impl_cpx_session(chunks, takes, events):
                     obs.append([22, 98, sorted(router._rxQueues.keys())[0] if router._rxQueues else -1])
                     break
                 for _ in range(e[2]):
-                    pump()
+                    if not pump():
+                        break
+                if state['stuck']:
+                    break
                 if th.is_alive() and 'r' not in box:
                     q = router._rxQueues[f]
                     puts = q.unfinished_tasks - extra_puts.get(f, 0)
@@ -700,6 +715,14 @@ def impl_cpx_session(chunks, takes, events):
                     gate.tokens.release()
                     router.join(1.5)
         alive_before_cleanup = router.is_alive()
+        if state['stuck']:                       # free a router thread that is blocked handing a packet over
+            for q in list(router._rxQueues.values()):
+                try:
+                    while True:
+                        q.get_nowait()
+                except queue.Empty:
+                    pass
+            gate.idle.wait(1.5)
         if not gate.closed:                      # end of the session: let the thread go
             router._connected = False
             gate.closed = True
@@ -715,7 +738,7 @@ def impl_cpx_session(chunks, takes, events):
             out.append(len(items))
             for p in items:
                 out += _enc_pkt(p)
-    return out, obs, {'thread_alive_after': router.is_alive(), 'sock': sock, 'router': router}
+    return out, obs, {'thread_alive_after': router.is_alive(), 'sock': sock, 'router': router, 'stuck': state['stuck']}
 
 
 # ---- several threads sending on one transport
@@ -1278,6 +1301,19 @@ def tie(ctx):
             break
         if _inside_header(cuts, bounds):
             nontriv.add(_h(['cpx', [list(c) for c in chunks], evs]))
+    for n_b in ([0, 49, 50, 51, 120, 200] if not ctx.thorough else [0, 1, 49, 50, 51, 52, 99, 100, 101, 150, 200, 200]):
+        bc = _backlog_case(rng, n_b, simple=(n_b in (51, 120)))
+        stream = b''.join(_frame_ref(a[0], a[1], a[2], a[3], 0, a[4]) for a in bc['packets'])
+        chunks = _cut(stream, bc['cuts'])
+        out, _, info = impl_cpx_session(chunks, [], bc['events'])
+        terms.append('cpx_case [] %s [%s]' % (_sock_term(chunks), '; '.join(ev_term(e) for e in bc['events'])))
+        exp.append(out)
+        ccs.append({'what': 'router thread with a backlog of %d unread packets differs from c_run' % n_b, 'kind': 'cpx',
+                    'takes': [], 'chunks': [list(c) for c in chunks], 'events': bc['events']})
+        if info['stuck']:
+            dis.append({'what': 'router thread stuck with unread transport data (backlog %d)' % n_b, 'backlog': n_b})
+            break
+    dist['backlog_sessions'] = [0, 49, 50, 51, 120, 200]
     run_blocks('c18h', terms, exp, lambda bi: ccs[bi], 30, header=HEADER_C)
     dist['cpx_sessions'] = n_c
     dist['cpx_event_kinds'] = ekinds
@@ -1703,7 +1739,82 @@ def _check_writers(writers, piece, schedule):
     return None
 
 
+def _backlog_case(rng, n, simple=False):
+    """one router: n packets of function f arrive and stay unread (or are read slowly) while packets of g (read at once)
+    and h (receiver registers late) arrive in between"""
+    f, g, h = rng.sample(FUNCTIONS, 3)
+    if simple:
+        pkts = [[1, 3, f, 0, [k // 256, k % 256]] for k in range(n)] + [[1, 3, g, 1, [255, 0, 7]]]
+        events = [['R', f], ['R', g]] + [['P']] * (n + 1) + [['R', g], ['R', f]]
+        return {'packets': pkts, 'cuts': [], 'events': events}
+    m = rng.randrange(2, 7)
+    slots = ['f'] * n + ['g'] * m + ['h'] * rng.randrange(0, 4)
+    rng.shuffle(slots)
+    slots += ['g']                                   # something of another function after the whole backlog
+    pkts, events = [], [['R', f]]
+    late_g = rng.random() < 0.3
+    if not late_g:
+        events.append(['R', g])
+    every = rng.choice([0, 0, 7, 25])                # f's receiver: never reads / reads slowly
+    reg_h = rng.randrange(0, len(slots))
+    for k, sl in enumerate(slots):
+        fn = {'f': f, 'g': g, 'h': h}[sl]
+        pkts.append([rng.choice(TARGETS), rng.choice(TARGETS), fn, rng.randrange(2), [k // 256, k % 256] + [rng.randrange(256)] * rng.randrange(0, 3)])
+        if k == reg_h:
+            events.append(['R', h])
+        if late_g and k == len(slots) // 3:
+            events.append(['R', g])
+        events.append(['P'])
+        if sl == 'g' or (sl == 'h' and rng.random() < 0.5):
+            events.append(['R', fn])
+        if sl == 'f' and every and k % every == 0:
+            events.append(['R', f])
+    events += [['R', g], ['R', h]] + [['R', f]] * rng.choice([1, 3, n + 1])
+    L = sum(len(p[4]) + 4 for p in pkts)
+    return {'packets': pkts, 'cuts': list(_rand_cuts(rng, L, _bounds(pkts))), 'events': events}
+
+
+def _check_backlog(pkts, cuts, events):
+    """property text on one real router thread with a long unread backlog: every function's receivers get exactly that
+    function's packets in arrival order whatever the others have (not) read; the router never stops reading"""
+    stream = b''.join(_frame_ref(a[0], a[1], a[2], a[3], 0, a[4]) for a in pkts)
+    out, obs, info = impl_cpx_session(_cut(stream, cuts), [], events)
+    opened, exp_q, arrivals, want = set(), {}, iter(pkts), []
+    for e in events:
+        if e[0] == 'P':
+            a = next(arrivals, None)
+            if a is not None and a[2] in opened:
+                exp_q[a[2]].append(a)
+        else:
+            fn = e[1]
+            if fn not in opened:
+                opened.add(fn)
+                exp_q[fn] = []
+            if exp_q[fn]:
+                a = exp_q[fn].pop(0)
+                want.append([20, fn, 1, a[0], a[1], a[2], a[3], 0, len(a[4]), len(a[4])] + list(a[4]))
+            else:
+                want.append([20, fn, 0])
+    if info['stuck']:
+        k = sum(1 for o in obs if o[0] == 20)
+        return {'observed': 'router thread stuck handing over a packet: did not come back for its next iteration (%d bytes of the '
+                            'stream unread, %d receive calls answered)' % (obs[-1][1], k),
+                'expected': want[k:k + 2], 'detail': 'a full per-function queue must not stop the router'}
+    if obs != want:
+        k = next((i for i, (x, y) in enumerate(zip(obs, want)) if x != y), min(len(obs), len(want)))
+        return {'observed': obs[k:k + 2], 'expected': want[k:k + 2], 'detail': 'receive no. %d' % k}
+    npump = sum(1 for e in events if e[0] == 'P')
+    if npump >= len(pkts) and out[0] != 0:
+        return {'observed': '%d bytes left on the transport' % out[0], 'expected': 'stream consumed'}
+    for fn, q in exp_q.items():
+        have = [_key(p) for p in info['router']._rxQueues[fn].queue]
+        if have != [[a[0], a[1], a[2], bool(a[3]), list(a[4])] for a in q]:
+            return {'observed': have[:3], 'expected': q[:3], 'detail': 'packets left queued for function %d' % fn}
+    return None
+
+
 _CHECKS = {
+    'router_blocks_on_backlog': lambda c: _check_backlog(c['packets'], c['cuts'], c['events']),
     'concurrent_writers_tear_frames': lambda c: _check_writers(c['writers'], c['piece'], c['schedule']),
     'short_send_loses_bytes': lambda c: _check_short_send(c['packets'], c['takes'], c['cuts']),
     'stale_length_misframes': lambda c: _check_stale_length(c['packet'], c['new_data'], c['cuts']),
@@ -1761,7 +1872,7 @@ def oracle(ctx, deep=False):
     def chk(cls, case):
         nonlocal n
         n += 1
-        if cls in seen and (not deep or cls in ('cpx_facade_violated', 'concurrent_writers_tear_frames')):     # (a failing facade session costs join timeouts)
+        if cls in seen and (not deep or cls in ('cpx_facade_violated', 'concurrent_writers_tear_frames', 'router_blocks_on_backlog')):     # (a failing facade session costs join timeouts)
             return
         f = _run_check(cls, case)
         if f is not None:
@@ -1895,6 +2006,11 @@ def oracle(ctx, deep=False):
                                     'trans': [3, 1, rng.choice([f for f in FUNCTIONS if f not in fs]), 0, [rng.randrange(256)]]})
     for n_big in (99, 150, 98):
         chk('uart_oversize_wedges_link', {'big': n_big, 'then': [5, 2, [1, 2, 3]]})
+    # 5d. long unread backlog of one function on one router thread (smallest first)
+    for n_b in (0, 10, 49, 50, 51, 52, 64, 100, 128, 200):
+        chk('router_blocks_on_backlog', _backlog_case(rng, n_b, simple=True))
+    for _ in range(ctx.scale(10, 150)):
+        chk('router_blocks_on_backlog', _backlog_case(rng, rng.choice([0, 5, 30, 49, 50, 51, 70, 101, 130, 200])))
     # 5c. several sender threads on one transport; smallest cases first (all schedules of length <= 4 for two one-packet senders)
     two = [[['crtp', 5, 2, [0, 0]]], [['cpx', [3, 4, 5, 0, [1, 0]]]]]
     for piece in (0, 2):
